@@ -411,13 +411,16 @@ def c11_plan(tier, seed):
     out = jobs("os-debug", "c11", 9 if q else 24, None, {"programs": 40 if q else 3000}, timeout=3000)
     out += jobs("os-release", "c11", 4 if q else 12, None, {"programs": 40 if q else 3000}, timeout=3000)
     out += jobs("memfd-debug", "c11", 3 if q else 8, None, {"programs": 40 if q else 3000}, timeout=3000)
+    # the crash grid of C12, judged on the receiving process's descriptors and mappings
+    out += jobs("os-debug", "c12", 8, c12_env, {"max_packets": 3 if q else 5, "leakcheck": 1}, timeout=3000)
     return out
 
 
 def c11_require(agg):
     st = agg["stats"]
     need = []
-    for k, n in (("programs", 300), ("failing_operations", 100), ("cloexec_checked_descriptors", 1000), ("unrelated_children_spawned", 10), ("race_children_spawned", 100), ("race_descriptor_creating_operations", 10000),
+    for k, n in (("programs", 300), ("failing_operations", 100), ("cloexec_checked_descriptors", 1000), ("unrelated_children_spawned", 10), ("race_children_spawned", 400), ("race_descriptor_creating_operations", 20000),
+                 ("crash_runs_checked_for_leaks", 100), ("interrupted_messages_with_attachments_checked_for_leaks", 30),
                  ("pest_descriptor_churn", 10000)):
         if st.get(k, 0) < n:
             need.append("%s < %d" % (k, n))
